@@ -513,6 +513,7 @@ def parse_authority(authority: bytes) -> list[Node]:
         return out
     # The host starts right after the last @, wherever the (possibly empty) username and password ended
     offset = len(authority) - len(address)
+    host_length = len(host)  # length of the host in the url, before percent decoding
     host = unquote_to_bytes(host)
     if host.startswith(b"["):
         if not host.endswith(b"]"):
@@ -524,7 +525,7 @@ def parse_authority(authority: bytes) -> list[Node]:
             out.append(parse_ip(host).shift(offset))
         except ValueError:
             if is_domain(host):
-                out.append(Node("network.domain", host, "", offset, offset + len(host)))
+                out.append(Node("network.domain", host, "", offset, offset + host_length))
     return out
 
 
